@@ -16,7 +16,9 @@ MC_CFG = "SPECIFICATION Spec\nCONSTANTS\n  Truncate = %s\n  MaxSteps = %d\nINVAR
 
 PAIRS = {
     1: (corpus.OK_PROFILE, c09.DOCS["pass"]),
-    2: (corpus.OK_PROFILE, c09.DOCS["fail1"]),
+    # percent signs in the message and in a node id: the output must not be treated as a format string
+    2: (corpus.OK_PROFILE.replace("p is required", "100% of p is required %s %d %v"),
+        c09.DOCS["fail1"].replace("http://example.org/n1", "http://example.org/my%20node%n1")),
     3: (c15.RICH_PROFILE, c15.RICH_DATA),
 }
 FAILING = [(corpus.OK_PROFILE, c09.DOCS["notJson"]), (corpus.OK_PROFILE, ""), (corpus.PARSE_ERROR_PROFILES[2], c09.DOCS["pass"]),
@@ -80,6 +82,9 @@ def run(tier):
         open(df, "w").write(d)
         fail_files.append((pf, df))
 
+    def rd(path):
+        return open(path, "rb").read() if os.path.isfile(path) else ("DIR" if os.path.isdir(path) else None)
+
     def replay_history(hi):
         h = hists[hi]
         d = os.path.join(root, "h%05d" % hi)
@@ -89,8 +94,19 @@ def run(tier):
         for si, st in enumerate(h):
             op = st["op"]
             if op == "remove":
-                os.remove(out)
+                if os.path.isdir(out):
+                    os.rmdir(out)
+                else:
+                    os.remove(out)
                 prev = "absent"
+                continue
+            if op == "mkdir":
+                os.mkdir(out)
+                prev = "directory"
+                continue
+            if op == "litter":
+                for name in ("out.json.tmp", "out.json~", "out.json.bak", "out.json.part", ".out.json.swp", "out.json.new", "out.tmp"):
+                    open(os.path.join(d, name), "wb").write(junk[6])
                 continue
             if op == "overwrite":
                 open(out, "wb").write(junk[st["pair"]])
@@ -99,9 +115,13 @@ def run(tier):
             if op in ("validateToFile", "validateToStdout"):
                 pf, df = files[st["pair"]]
                 args = [acv, "validate", pf, df] + ([out] if op == "validateToFile" else [])
-                before = open(out, "rb").read() if os.path.exists(out) else None
+                before = rd(out)
                 pr = subprocess.run(args, capture_output=True, timeout=120)
                 want = mask(refs["pair%d" % st["pair"]])
+                if prev == "directory" and op == "validateToFile":
+                    if pr.returncode == 0 or looks_like_report(pr.stdout):
+                        return ("output path is a directory but the run does not fail", h, si, "")
+                    continue
                 if pr.returncode != 0:
                     return ("validate exits %d on valid input" % pr.returncode, h, si, pr.stderr[-300:].decode(errors="replace"))
                 if op == "validateToFile":
@@ -115,21 +135,21 @@ def run(tier):
                 else:
                     if mask(pr.stdout) not in (want, want + b"\n"):
                         return ("stdout is not the library's report", h, si, pr.stdout[:200].decode(errors="replace"))
-                    after = open(out, "rb").read() if os.path.exists(out) else None
+                    after = rd(out)
                     if after != before:
                         return ("validate without output path changed the file", h, si, "")
                 continue
             # failing runs
             pf, df = fail_files[(hi + si) % len(fail_files)]
-            before = open(out, "rb").read() if os.path.exists(out) else None
+            before = rd(out)
             args = [acv, "validate", pf, df] + ([out] if op == "failToFile" else [])
             pr = subprocess.run(args, capture_output=True, timeout=120)
-            after = open(out, "rb").read() if os.path.exists(out) else None
+            after = rd(out)
             if pr.returncode == 0:
                 return ("exit status 0 for input the library rejects", h, si, "input %d" % ((hi + si) % len(fail_files)))
             if looks_like_report(pr.stdout):
                 return ("a report is printed for input the library rejects", h, si, "")
-            if after is not None and looks_like_report(after) and after != before:
+            if after not in (None, "DIR") and looks_like_report(after) and after != before:
                 return ("a report is written to the file for input the library rejects", h, si, "")
         shutil.rmtree(d, ignore_errors=True)
         return None
